@@ -62,13 +62,21 @@ New(cls, ps, pw, ids) ==
   /\ UNCHANGED <<wire, disk, nrest>>
 
 Start(i, x) ==
-  LET o == StartOutcome(st[i], x) IN
+  \E o \in StartOutcomes(st[i], x) :
   /\ st' = [st EXCEPT ![i] = StartNext(@, x, o)]
   /\ aux' = [aux EXCEPT ![i].nmsg = @ + (IF IsMsg(o) THEN 1 ELSE 0),
                         ![i].entropy = @ + (IF IsMsg(o) THEN 1 ELSE 0),
                         ![i].lastc = OutcomeClass(o)]
   /\ wire' = IF IsMsg(o) THEN wire \cup {o.v} ELSE wire
   /\ UNCHANGED <<disk, nrest>>
+
+(* start() on an instance that has not started, with an entropy function     *)
+(* that raises: the call raises, nothing is sent, no scalar exists           *)
+StartFails(i) ==
+  /\ ~st[i].started
+  /\ st' = [st EXCEPT ![i] = StartFailedNext(@)]
+  /\ aux' = [aux EXCEPT ![i].lastc = "Rejected"]
+  /\ UNCHANGED <<wire, disk, nrest>>
 
 Finish(i, m) ==
   \E o \in FinishOutcomes(st[i], m) :
@@ -92,8 +100,8 @@ Serialize(i) ==
 
 (* serialize() before start() raises and changes nothing                      *)
 SerializeTooEarly(i) ==
-  /\ SerializeOutcome(st[i]) = Err("SerializedTooEarly")
-  /\ aux' = [aux EXCEPT ![i].lastc = "SerializedTooEarly"]
+  /\ IsErr(SerializeOutcome(st[i]))
+  /\ aux' = [aux EXCEPT ![i].lastc = SerializeOutcome(st[i]).v]
   /\ UNCHANGED <<st, wire, disk, nrest>>
 
 (* crash and revive as one step: serialize() immediately followed by          *)
@@ -125,10 +133,14 @@ DoNew       == \E cls \in ClassSet, ps \in ParamSets, pw \in Passwords, ids \in 
 DoStart     == \E i \in Inst : \E x \in ScalarChoices(st[i].ps.grp) : Start(i, x)
 DoFinish    == \E i \in Inst : \E m \in Deliverable(i) : Finish(i, m)
 DoSerialize == \E i \in Inst : Serialize(i)
+DoStartFails == \E i \in Inst : StartFails(i)
 DoRestore   == \E d \in disk : \E cls \in ClassSet, ps \in ParamSets : Restore(cls, ps, d)
 Next == DoNew \/ DoStart \/ DoFinish \/ DoSerialize \/ DoRestore
 
 Spec == Init /\ [][Next]_vars
+(* the same machine with entropy functions that may raise                     *)
+NextF == Next \/ DoStartFails
+SpecF == Init /\ [][NextF]_vars
 
 (* the class of the last outcome is an observation only (used to print        *)
 (* behaviours): models that do not need it hide it with this VIEW             *)
@@ -144,7 +156,8 @@ TypeOK ==
        LET s == st[i] a == aux[i] IN
        /\ s.cls \in Classes
        /\ s.started \in BOOLEAN /\ s.finished \in BOOLEAN /\ s.gaveKey \in BOOLEAN /\ s.gaveMsg \in BOOLEAN
-       /\ s.restored \in BOOLEAN /\ s.hasx \in BOOLEAN
+       /\ s.restored \in BOOLEAN /\ s.hasx \in BOOLEAN /\ s.limbo \in BOOLEAN
+       /\ (s.limbo => ~s.restored) /\ (s.limbo /\ ~s.started => a.nmsg = 0 /\ a.nkey = 0)
        /\ (s.gaveKey => s.finished /\ s.started) /\ (s.gaveMsg => s.started /\ ~s.restored)
        /\ (s.started <=> s.hasx) /\ (s.started => Len(s.out) = GESize(s.ps.grp)) /\ (~s.started => s.out = <<>>)
        /\ (s.restored => s.started /\ a.origin \in 1..(i - 1)) /\ (~s.restored => a.origin = 0)
